@@ -54,10 +54,10 @@ pub fn gen_ustream(prop: &str, seed: u64, thorough: bool) -> Plan {
         (Proto::Trojan, "aes-128-gcm", "server"),
         (Proto::Vmess, "aes-128-gcm", "server"),
     ];
-    let (proto, cipher, part) = cells[seed as usize % cells.len()];
+    let (proto, cipher, part) = if prop == "C05" { [(Proto::Vmess, "aes-128-gcm", "server"), (Proto::Vmess, "chacha20-poly1305", "server")][seed as usize % 2] } else { cells[seed as usize % cells.len()] };
     let mut config = gen_config(&mut g, proto, cipher, Transport::Tcp, 0);
     config.client_mode = "tcp_and_udp".into();
-    let k = g.range(2, 4) as usize;
+    let k = if prop == "C05" { g.range(3, 6) } else { g.range(2, 4) } as usize;
     let frames: Vec<(bool, usize)> = (0..k).map(|i| (i % 2 == 1 || g.chance(40), *g.pick(&[0usize, 1, 2, 17, 120, 300]))).collect();
     Plan {
         property: prop.into(),
@@ -88,6 +88,14 @@ fn frame_payload(tag: u32, ix: usize, size: usize) -> Vec<u8> {
 
 /// one connection of the reference client: handshake + frames, delivered with the given cuts
 async fn run_server_case(c: &Creds, g: &mut Gen, frames: &[(bool, usize)], tag: u32, cuts: &[usize], bytewise: bool, log: &Arc<Mutex<Vec<Vec<u8>>>>) -> (Got, usize, usize) {
+    let (got, n, head, _) = run_server_case_with(c, g, frames, tag, cuts, bytewise, None, log).await;
+    (got, n, head)
+}
+
+/// `flip`: (offset, mask) applied to the stream before it is sent (C05); also returns where each frame ends in the stream
+#[allow(clippy::too_many_arguments)]
+async fn run_server_case_with(c: &Creds, g: &mut Gen, frames: &[(bool, usize)], tag: u32, cuts: &[usize], bytewise: bool, flip: Option<(usize, u8)>, log: &Arc<Mutex<Vec<Vec<u8>>>>) -> (Got, usize, usize, Vec<usize>) {
+    let mut ends: Vec<usize> = Vec::new();
     let addr_of = |by_name: bool| if by_name { Addr::Name(U_NAME.as_bytes().to_vec(), U_PORT) } else { Addr::V4(U_IP, U_PORT) };
     let mut wire;
     let head_len;
@@ -97,6 +105,7 @@ async fn run_server_case(c: &Creds, g: &mut Gen, frames: &[(bool, usize)], tag: 
             head_len = wire.len();
             for (i, (by_name, size)) in frames.iter().enumerate() {
                 wire.extend(refimpl::trojan::udp_packet(&addr_of(*by_name), &frame_payload(tag, i, *size)));
+                ends.push(wire.len());
             }
         }
         _ => {
@@ -106,14 +115,21 @@ async fn run_server_case(c: &Creds, g: &mut Gen, frames: &[(bool, usize)], tag: 
             wire = w;
             // the sealed header length is what precedes the first chunk: measure it with an empty first datagram of the same session
             head_len = wire.len().saturating_sub(frames[0].1 + 64);
+            ends.push(wire.len());
             for (i, (_, size)) in frames.iter().enumerate().skip(1) {
                 wire.extend(cl.write(&frame_payload(tag, i, *size)));
+                ends.push(wire.len());
             }
+        }
+    }
+    if let Some((at, mask)) = flip {
+        if at < wire.len() {
+            wire[at] ^= mask;
         }
     }
     let before = log.lock().unwrap().len();
     let mut got = Got::default();
-    let Ok(mut s) = TcpStream::connect(server_addr()).await else { return (got, wire.len(), head_len) };
+    let Ok(mut s) = TcpStream::connect(server_addr()).await else { return (got, wire.len(), head_len, ends) };
     s.set_own_styles(0, 0);
     s.set_peer_read_style(0);
     let mut from = 0usize;
@@ -139,7 +155,7 @@ async fn run_server_case(c: &Creds, g: &mut Gen, frames: &[(bool, usize)], tag: 
     }
     got.at_target = log.lock().unwrap()[before..].to_vec();
     got.quiet_ok = true;
-    (got, wire.len(), head_len)
+    (got, wire.len(), head_len, ends)
 }
 
 async fn dgram_target(log: Arc<Mutex<Vec<Vec<u8>>>>) {
@@ -181,6 +197,35 @@ fn execute_server_part(plan: &Plan) -> Outcome {
             findings.push(("baseline".into(), format!("unsegmented: the target received {} of {} datagrams ({} identical)", base.at_target.len(), frames.len(), base.at_target.iter().zip(want(0).iter()).filter(|(a, b)| a == b).count()), vec![]));
             return (None, findings, evals);
         }
+        if prop == "C05" {
+            // tampering: one bit flipped at every byte position of the stream (bit drawn); the connection is the attacker's to
+            // shape, so the tampered stream arrives whole, or cut right behind the last intact frame. Whatever reaches the
+            // target is a prefix of what was sent and ends before the frame that holds the flipped byte.
+            let flips: Vec<usize> = match plan.extra.get("only_flip").and_then(|v| v.as_u64()) {
+                Some(k) => vec![k as usize],
+                None => (0..n).collect(),
+            };
+            for (i, at) in flips.iter().enumerate() {
+                let tag = i as u32 + 1;
+                let mask = 1u8 << g.below(8);
+                // where the frames end is the same for every tag (sizes are fixed): measured on this very stream
+                let (got, _, _, ends) = run_server_case_with(&c, &mut g, &frames, tag, &[], false, Some((*at, mask)), &log).await;
+                evals += 1;
+                let w = want(tag);
+                let allowed = ends.iter().filter(|e| **e <= *at).count();
+                let is_prefix = got.at_target.len() <= w.len() && got.at_target.iter().zip(w.iter()).all(|(a, b)| a == b);
+                // (VMess leaves the random padding behind every chunk unauthenticated by design: a flip there changes nothing, so
+                // "no more than the frames that precede the flipped byte" cannot be demanded - the prefix rule can)
+                let _ = allowed;
+                let oracle = if !is_prefix { Some("not-a-prefix") } else { None };
+                if let Some(oracle) = oracle {
+                    if !findings.iter().any(|f| f.0 == oracle) {
+                        findings.push((oracle.into(), format!("bit {mask:#04x} of byte {at} of {n} flipped (frames end at {ends:?}): the target received {} datagrams, {} of them identical to what was sent; at most {allowed} precede the tampered byte", got.at_target.len(), got.at_target.iter().zip(w.iter()).filter(|(a, b)| a == b).count()), vec![*at]));
+                    }
+                }
+            }
+            return (None, findings, evals);
+        }
         let mut cases: Vec<(Vec<usize>, bool)> = Vec::new();
         if let Some(cuts) = &only {
             cases.push((cuts.clone(), cuts.is_empty()));
@@ -220,6 +265,11 @@ fn execute_server_part(plan: &Plan) -> Outcome {
     if prop == "C04" {
         for (oracle, detail, cuts) in &findings {
             v.push(Violation::new("C04", format!("C04/dgram-in-stream/{oracle}/{cell}/c2s"), detail.clone()).with_patch(serde_json::json!({ "only_cuts": cuts })));
+        }
+    }
+    if prop == "C05" {
+        for (oracle, detail, at) in &findings {
+            v.push(Violation::new("C05", format!("C05/dgram-in-stream/{oracle}/{cell}/c2s"), detail.clone()).with_patch(serde_json::json!({ "only_flip": at.first().copied().unwrap_or(0) })));
         }
     }
     for p in &out.panics {
